@@ -20,10 +20,10 @@ SPEC = dict(
           "determinants towards penalised groups from the titratable groups, recalculation of every total) is replayed through the model: "
           "the state of every group when coupling_effects is entered plus the labels it returns give, through removeDeterminants and "
           "calculateTotal, the state when calculate_pka returns, bit-for-bit (remove_then_total is the theorem about that step). "
-          "The whole scoring phase is modelled as well (Model/Scoring.lean: calculate_pka of one conformation with everything it calls - desolvation, backbone and ion determinants, backbone reorganisation, the pair loop with angle factors, exception rules and both families of pair rules, the iterative scheme, totals, coupling penalties and the removal of determinants towards penalised groups; parameters regenerated from /repo and read back from the compiled driver); its Float instance is compared with the real calculate_pka on every distinct conformation this check runs - counts, partners and order exactly, numbers to 1e-9 (they are bit-identical on the unchanged tree). pipeline_consistent: for every structure, parameter set and switch, the pKa that score leaves on a group is calculate_total_pka of exactly the desolvation terms and determinant lists it leaves on that group - proved for every scalar type, hence also for the Float instance that is compared with the code; pipeline_sum_identity is the reals form (model pKa + both desolvation terms + the three sums; the configured value for a bridged cysteine). The determinant table and the summary of the .pka file are modelled (Model/Output.lean, with Python's fixed-point formatting as exact round-half-even of the binary value) on top of Program.run and average_of_conformations; every program-level comparison of this check compares the summary character by character and the table block by block with the real sections. Theorems: summary_rows_once (every reported group whose residue type is in write_out_order has exactly one summary row), summary_and_table_render_one_number.",
+          "The whole scoring phase is modelled as well (Model/Scoring.lean: calculate_pka of one conformation with everything it calls - desolvation, backbone and ion determinants, backbone reorganisation, the pair loop with angle factors, exception rules and both families of pair rules, the iterative scheme, totals, coupling penalties and the removal of determinants towards penalised groups; parameters regenerated from /repo and read back from the compiled driver); its Float instance is compared with the real calculate_pka on every distinct conformation this check runs - counts, partners and order exactly, numbers to 1e-9 (they are bit-identical on the unchanged tree). pipeline_consistent: for every structure, parameter set and switch, the pKa that score leaves on a group is calculate_total_pka of exactly the desolvation terms and determinant lists it leaves on that group - proved for every scalar type, hence also for the Float instance that is compared with the code; pipeline_sum_identity is the reals form (model pKa + both desolvation terms + the three sums; the configured value for a bridged cysteine). The determinant table and the summary of the .pka file are modelled (Model/Output.lean, with Python's fixed-point formatting as exact round-half-even of the binary value) on top of Program.run and average_of_conformations; every program-level comparison of this check compares the summary character by character and the table block by block with the real sections. Theorems: summary_rows_once (every reported group whose residue type is in write_out_order has exactly one summary row), summary_and_table_render_one_number. program_pka_consistent (Props/ProgramScoring.lean): on the program model, for any scalar - in particular the Float instance compared with the program bit for bit - the pKa reported for every group of a prepared conformation is calculate_total_pka of its own record.",
     note="The pipeline theorem is about the scoring model (shared_determinants is outside that model and is covered by the record theorems plus the identity evaluated on real runs over all option combinations). Averaging over conformations and the printed rows are separate theorems. Number formatting is Python's; compared at the printed precision.",
     technique="Lean 4 proof (algebra over Q, induction over records, list lemmas for the rows) + bitwise Float correspondence + spec evaluation on real runs",
-    lean=["Propka.Props.C02", "Propka.Props.Program"],
+    lean=["Propka.Props.C02", "Propka.Props.Program", "Propka.Props.ProgramScoring"],
     rule="test files (incl. all multi-conformation ones) and library structures with ligands x option/parameter settings; every group "
          "of every conformation and the average; non-trivial = distinct (structure, settings) with at least one determinant",
     assumptions=[],
